@@ -219,6 +219,10 @@ def generate(run_seed, tier):
             if cfg['obs'] is not None and r.random() < 0.4:
                 # ... and is handed another observation (other bin layout)
                 ops[pos].append(S.gen_obs(r, mcfg))
+            else:
+                ops[pos].append(None)
+            # ... or another (fresh) model object of the same configuration
+            ops[pos].append(r.random() < 0.25)
             for j in range(pos + 1, len(ops)):
                 if ops[j][0] == 'refit':
                     break
@@ -555,12 +559,13 @@ def execute(case, keep_text=False):
             else:
                 raise ValueError(op)
 
-    segments = [[[], None, 0, None]]
+    segments = [[[], None, 0, None, False]]
     for i, op in enumerate(ops):
         if op[0] == 'refit':
             segments[-1][1] = op[1]
             segments[-1][3] = op[2] if len(op) > 2 else None
-            segments.append([[], None, i + 1, None])
+            segments[-1][4] = bool(op[3]) if len(op) > 3 else False
+            segments.append([[], None, i + 1, None, False])
         else:
             segments[-1][0].append(op)
     plan = Plan()
@@ -568,7 +573,7 @@ def execute(case, keep_text=False):
     samplers.set_plan(plan)
     samplers.use_nestle_double(True)
     try:
-        for seg_ops, newfit, offset, newobs in segments:
+        for seg_ops, newfit, offset, newobs, newmodel in segments:
             plan.ops = seg_ops
             plan.offset = offset
             plan.ran = False
@@ -594,7 +599,19 @@ def execute(case, keep_text=False):
                     obs = S.build_obs(newobs)
                     opt.set_observed(obs)
                     out.bump('probes', 'observation_replaced')
-                S.apply_refit(opt, fit, newfit)
+                oldfit = fit
+                if newmodel:
+                    model, _o, faulty = _build(cfg, use_faulty)
+                    opt.set_model(model)
+                    for n in list(written):
+                        if n in model.fittingParameters:
+                            del written[n]      # a fresh object: configured
+                    for n in list(model.fittingParameters):
+                        opt.disable_fit(n)
+                    oldfit = [f for f in fit
+                              if f['name'] not in model.fittingParameters]
+                    out.bump('probes', 'model_replaced')
+                S.apply_refit(opt, oldfit, newfit)
             except Exception as e:
                 viol('refit-raised', type(e).__name__,
                      're-configuring the optimizer raised %r' % (e,))
